@@ -22,8 +22,8 @@ META = {
         "ptera.transform.ExternalVariableCollector.*", "ptera.transform.transform (info table)", "ptera.selector.Call.problems/verify",
         "ptera.overlay.autotool/_tooler/fits_selector", "ptera.probe.Probe._enter/_install_tooling",
     ],
-    "bounds": {"quick": {"slots": "slot 1: 33 forms x 3 names; slot 2: 10 forms x 2 names; optional extra read", "probed_identifiers": 8},
-               "thorough": {"slots": "2 free slots x 34 forms x 3 names + optional extra read of any name", "probed_identifiers": 8}},
+    "bounds": {"quick": {"slots": "slot 1: 36 forms x 3 names; slot 2: 10 forms x 2 names; optional extra read", "probed_identifiers": 8},
+               "thorough": {"slots": "2 free slots x 37 forms x 3 names + optional extra read of any name", "probed_identifiers": 8}},
     "out_of_scope": ["names that occur only inside nested scopes of f (lambda parameters, comprehension variables, locals of nested "
                      "functions): Python does not report them for f and they are not fresh either -- not asserted",
                      "a name that is the iteration variable of a list/set/dict comprehension in f whenever CPython's symtable gives a "
@@ -49,6 +49,10 @@ FORMS = [
     # bindings that belong to a scope nested in f, not to f
     ("stmt", "def _g({N}):\n    pass"), ("stmt", "_m = lambda {N}: 0"), ("stmt", "def _g():\n    {N} = 1"),
     ("stmt", "class _K:\n    {N} = 1"), ("stmt", "_w = [({N} := 1) for _i in ()]"), ("stmt", "_s = {{N}: 0 for {N} in ()}"),
+    ("stmt", "_v = [[({N} := 1) for _i in ()] for _j in ()]"),
+    # declarations inside the body of an except clause
+    ("stmt", "try:\n    pass\nexcept Exception:\n    global {N}\n    _q = {N}"),
+    ("stmt", "try:\n    pass\nexcept Exception:\n    nonlocal {N}\n    {N} = 1"),
 ]
 PROBED = NAMES + ["zz", "xml", "#value", "#val", "#exit2"]
 
